@@ -47,7 +47,7 @@ ASSUMPTIONS = [
     "tolerance would exceed 1e-3 are skipped and counted",
     "volume/prnc convergence bounds were calibrated once on the unchanged tree and doubled: "
     "|dV/V| <= 3.6/min(a,b) for discretised ellipses (semi-axes in pixels), <= 20/n^2 for n-gons, "
-    "|prnc/(a/b) - 1| <= 2/min(a,b)",
+    "|prnc/(a/b) - 1| <= 2/min(a,b), |inert_ratio_raw|cvx/(a/b) - 1| <= 2.7/min(a,b)",
 ]
 LEVEL_TEXT = ("Held on the observed executions: each monitored call of the feature functions "
               "(direct and through dataset ancillary features) satisfied the algebraic law or "
@@ -66,7 +66,8 @@ MIN_EVALS = {"contour_refill": 300, "contour_on_boundary": 200, "inertia_transla
              "area_translation": 100, "volume_cube": 300, "volume_sign": 200,
              "volume_convergence": 50, "bright_def": 100, "bright_bc_def": 100,
              "bright_perc_def": 100, "offset_shift": 100, "ctc_unmix": 100,
-             "ctc_roundtrip": 100, "ds_matches_definition": 50}
+             "ctc_roundtrip": 100, "ds_matches_definition": 50, "ds_access": 100,
+             "inertia_ellipse": 50, "prnc_ellipse": 50, "tilt_translation": 100}
 WATCHDOG_S = {"quick": 300, "thorough": 1500}
 
 
@@ -604,9 +605,24 @@ def judge_volume(ctx, orig, args, out, exc):
             # contours without width; the law is then judged on the magnitude
             ctx.count("volume_fix_orientation_sign_changed_under_scaling")
             vs = -vs
-        ctx.check("volume_cube", abs(vs - s ** 3 * v) <= tol * s ** 3 and not math.isnan(v),
+        ok_cube = abs(vs - s ** 3 * v) <= tol * s ** 3 and not math.isnan(v)
+        key = None
+        if fix and not ok_cube:
+            # rounding of pos/pix may flip the orientation heuristic for thin contours; a
+            # correct reversal would only change the sign (accepted above). The known defect
+            # reverses r but not z, which changes the magnitude: attribute the violation to
+            # it only if its model reproduces both observed values.
+            from vmon.model import c18_ref as R
+            r1 = R.needs_reversal(c, px, py, pix)
+            r2 = R.needs_reversal(c, px * s, py * s, pix * s)
+            p1 = R.volume_model(c, px, py, pix, reverse=r1, defect=True)
+            p2 = R.volume_model(c, px * s, py * s, pix * s, reverse=r2, defect=True)
+            if r1 != r2 and abs(p1 - v) <= tol and abs(abs(p2) - abs(vs)) <= tol * s ** 3:
+                key = R.DVF
+        ctx.check("volume_cube", ok_cube,
                   lambda: {"contour": c, "pos": [px, py], "pix": pix, "scale": s, "volume": v,
                            "scaled": vs, "expected": s ** 3 * v, "fix_orientation": fix},
+                  finding=key,
                   message=f"volume {v!r} at pixel size {pix}, {vs!r} at {pix * s} "
                           f"(expected {s ** 3 * v!r})")
         if abs(v) > 1e-3 * vscale:
@@ -1021,6 +1037,15 @@ def run_ellipse(ctx, idx):
                            "volume": v, "analytic": va, "rel_err": err, "bound": bound},
                   message=f"discretised ellipsoid a={a:.2f} b={b:.2f}: volume {v!r}, analytic "
                           f"{va!r}, rel. error {err:.4f} > {bound:.4f}")
+        # the inertia ratio sqrt(mu20/mu02) of an ellipse with semi-axis a along x is a/b
+        for nm, f in (("raw", IR.get_inert_ratio_raw), ("cvx", IR.get_inert_ratio_cvx)):
+            ir = float(f(c))
+            ib = 2.7 / min(a, b)
+            ctx.check("inertia_ellipse", abs(ir / (a / b) - 1) <= ib,
+                      lambda: {"feature": f"inert_ratio_{nm}", "a": a, "b": b, "value": ir,
+                               "a/b": a / b, "bound": ib},
+                      message=f"inert_ratio_{nm} {ir!r} of a discretised axis-parallel ellipse "
+                              f"with a/b = {a / b:.4f}")
     except BaseException as e:
         if isinstance(e, (KeyboardInterrupt, SystemExit, MemoryError)):
             raise
